@@ -29,6 +29,7 @@ NA = "ant_protocol::NetworkAddress"
 def run(R):
     F = R.F
     refpoint_rules(R)
+    order_and_endian_rules(R)
     # (1) one metric
     R.who_may_call("C11.metric", [KD], [NAD, "ant_networking::sort_peers_by_key",
                                         "ant_networking::network_discovery::NetworkDiscovery::generate_candidates",
@@ -318,3 +319,52 @@ def refpoint_rules(R):
         n_sites += found
     R.inst("C11.refpoint", "K6 flows-to", "every distance in a closeness-deciding function is measured from that function's reference point (target / self)", n_sites, ok_all and n_sites >= 17,
            {"functions": n_fns, "sites": n_sites})
+
+
+def order_and_endian_rules(R):
+    """(a) sort_peers_by_key answers Ok only after sorting (no unsorted fast path); (b) the metric is big-endian everywhere a
+    distance / range crosses a byte boundary: no little-endian U256 conversion in the node, networking or protocol crates;
+    (c) record keys are taken from addresses with the total `to_record_key`, the partial `as_record_key` stays confined to its two
+    logging call sites; (d) a client's own id is removed before the closest peers are sorted and cut, not after; (e) the store's
+    distance index and farthest record are only touched by their owning functions (rules shared with C01 / C10)."""
+    F = R.F
+    sp = R.body("C11.sort.always", "ant_networking::sort_peers_by_key")
+    if sp is not None:
+        prep(sp)
+        g = cfg_of(sp)
+        srt = set(CallSink("alloc::slice::<impl [T]>::sort_by", "alloc::slice::<impl [T]>::sort_by_key", "alloc::slice::<impl [T]>::sort_unstable_by").blocks(sp))
+        oks = set(RetSink("Ok").blocks(sp))
+        ok = bool(srt) and bool(oks) and not (oks & g.reach((0,), avoid=srt))
+        if not ok:
+            R.viol("C11.sort.always", "unsorted-ok", "sort_peers_by_key can answer Ok without having sorted the peers by distance", sp, sp.lines[0])
+        R.inst("C11.sort.always", "K5 must-follow", "sort_peers_by_key answers Ok only after sorting by distance", len(oks), ok)
+    n, le = 0, []
+    for b in F.bodies.values():
+        if b.crate not in ("ant_node", "ant_networking", "ant_protocol") or "::tests::" in b.path or "::test" in b.path.split("::")[-1]:
+            continue
+        for c in b.calls:
+            nc = c["ncallee"] or ""
+            if nc.startswith("ruint::") and any(x in nc for x in ("from_be_bytes", "from_be_slice", "to_be_bytes", "from_le_bytes", "from_le_slice", "to_le_bytes", "try_from_le_slice", "try_from_be_slice")):
+                n += 1
+                if "_le_" in nc:
+                    le.append((b, c))
+    for b, c in le:
+        R.viol("C11.endian", "little-endian:%s" % R.root_path(b).split("::")[-1], "%s converts a 256-bit distance/range with %s: distances are big-endian integers everywhere else" % (R.root_path(b), c["ncallee"].split("::")[-1]), b, c["line"])
+    if n < 3:
+        R.viol("C11.endian", "instance-floor", "only %d U256 byte conversions found (floor 3)" % n)
+    R.inst("C11.endian", "K1 forbidden-callee", "U256 ↔ bytes conversions of distances and ranges are big-endian", n, not le and n >= 3)
+    R.who_may_call("C11.total-key", ["ant_protocol::NetworkAddress::as_record_key"], ["ant_node::node::Node::handle_network_event", "ant_node::node::Node::handle_query", "ant_protocol::*"], floor=1,
+                   descr="the partial NetworkAddress::as_record_key is used only where a raw key is expected; everywhere else keys come from the total to_record_key",
+                   ignore_crates=("autonomi", "ant_cli", "ant"))
+    gc = R.body("C11.self-first", "ant_networking::Network::get_all_close_peers_in_range_or_close_group::{closure#0}")
+    if gc is not None:
+        prep(gc)
+        g = cfg_of(gc)
+        srt = [blk["id"] for blk in gc.blocks if blk["term"]["k"] == "call" and not blk["cleanup"] and callee_matches(blk["term"], ["ant_networking::sort_peers_by_address"])]
+        ret = [blk["id"] for blk in gc.blocks if blk["term"]["k"] == "call" and not blk["cleanup"] and (blk["term"]["ncallee"] or "").endswith("Vec::retain")]
+        ok = bool(srt) and bool(ret) and all(not (set(ret) & g.reach((x,))) for x in srt)
+        if not ok:
+            R.viol("C11.self-first", "self-after-cut", "get_all_close_peers_in_range_or_close_group removes the client's own id after the peers were sorted and cut: the answer is one short / misses the next nearest peer", gc, gc.lines[0])
+        R.inst("C11.self-first", "K5 must-follow", "self is removed before sort_peers_by_address, never after", len(srt) + len(ret), ok)
+    from props.C01 import store_rules
+    store_rules(R, "C11.store")
